@@ -119,6 +119,8 @@ def _ensure_global() -> None:
 
 
 POSITIONS = ['direct', 'List', 'Dict', 'Optional', 'Tuple', 'outer-field', 'top-List', 'Bag', 'Dict-of-Bag']
+# untyped positions: nothing is converted on input, but on output a marker value found there is serialised by its runtime type, with the handlers in effect
+ANY_POSITIONS = ['List[Any]', 'Any', 'Tuple[Any, int]', 'Dict[str, Any]']
 FORMS = ['callable', 'sequence', 'sequence-declining', 'mapping']
 
 
@@ -128,6 +130,8 @@ def cases(draw) -> t.Any:
     pos = draw(st.sampled_from(POSITIONS))
     form = draw(st.sampled_from(FORMS))
     direction = draw(st.sampled_from(['from', 'into']))
+    if direction == 'into' and draw(st.integers(0, 3)) == 3:
+        pos = draw(st.sampled_from(ANY_POSITIONS))
     sub = draw(st.integers(0, 3)) == 3          # instantiate a subclass of the containing class
     # handlers on the containing class / its base that do NOT provide a converter for M (another type, or declining):
     # they must not stop the search from going on to the enclosing class
@@ -173,17 +177,18 @@ def check(case: t.Any, ctx: Ctx) -> None:
         return {M: _label_conv(label)}
 
     wrap = {'direct': M, 'List': t.List[M], 'Dict': t.Dict[str, M], 'Optional': t.Optional[M], 'Tuple': t.Tuple[M, int],
-            'outer-field': M, 'top-List': t.List[M], 'Bag': Bag[M], 'Dict-of-Bag': t.Dict[str, Bag[M]]}[pos]  # type: ignore
+            'outer-field': M, 'top-List': t.List[M], 'Bag': Bag[M], 'Dict-of-Bag': t.Dict[str, Bag[M]],  # type: ignore
+            'List[Any]': t.List[t.Any], 'Any': t.Any, 'Tuple[Any, int]': t.Tuple[t.Any, int], 'Dict[str, Any]': t.Dict[str, t.Any]}[pos]
     wrap_data = {'direct': 7, 'List': [7], 'Dict': {'k': 7}, 'Optional': 7, 'Tuple': [7, 1], 'outer-field': 7, 'top-List': [7],
-                 'Bag': [7], 'Dict-of-Bag': {'k': [7]}}[pos]
+                 'Bag': [7], 'Dict-of-Bag': {'k': [7]}, 'List[Any]': [7], 'Any': 7, 'Tuple[Any, int]': [7, 1], 'Dict[str, Any]': {'k': 7}}[pos]
 
     def unwrap(x: t.Any) -> t.Any:
         if pos in ('Bag', 'Dict-of-Bag'):
             b = x['k'] if pos == 'Dict-of-Bag' else x
             return b.items[0] if isinstance(b, Bag) else b[0]
-        if pos in ('List', 'Tuple', 'top-List'):
+        if pos in ('List', 'Tuple', 'top-List', 'List[Any]', 'Tuple[Any, int]'):
             return x[0]
-        if pos == 'Dict':
+        if pos in ('Dict', 'Dict[str, Any]'):
             return x['k']
         return x
 
@@ -275,9 +280,11 @@ def check(case: t.Any, ctx: Ctx) -> None:
     if pos == 'top-List':
         x: t.Any = [Labeled('x', 7)]
     else:
-        inner_val: t.Any = {'direct': Labeled('x', 7), 'List': [Labeled('x', 7)], 'Dict': {'k': Labeled('x', 7)}, 'Optional': Labeled('x', 7),
-                            'Tuple': (Labeled('x', 7), 1), 'outer-field': Labeled('x', 7), 'Bag': Bag([Labeled('x', 7)]),
-                            'Dict-of-Bag': {'k': Bag([Labeled('x', 7)])}}[pos]
+        # (typed positions are serialised by the declared type M whatever the value is; untyped ones by the value's runtime type,
+        #  so there the value has to be a real instance of M)
+        mv: t.Any = M() if pos in ANY_POSITIONS else Labeled('x', 7)
+        inner_val: t.Any = {'direct': mv, 'List': [mv], 'Dict': {'k': mv}, 'Optional': mv, 'Tuple': (mv, 1), 'outer-field': mv, 'Bag': Bag([mv]),
+                            'Dict-of-Bag': {'k': Bag([mv])}, 'List[Any]': [mv], 'Any': mv, 'Tuple[Any, int]': (mv, 1), 'Dict[str, Any]': {'k': mv}}[pos]
         inner_inst = InnerUsed.make_unchecked(m=inner_val)
         if inner_wrap == 'List':
             inner_inst = [inner_inst]
